@@ -110,6 +110,99 @@ def corr_history(ctx: Ctx, drv):
         ctx.corr_case("XL_BOMD.one_step history (recorded)", {"k": k, "steps": len(rec)}, f"{bad} mismatches", "0", bad == 0, stratum=f"k={k}")
 
 
+def _restart_case(inp):
+    """run XL-BOMD/KSA (stub engine) with a checkpoint at EVERY step; for each checkpoint let the real run_from_checkpoint rebuild the
+    auxiliary density and compare it with the density the uninterrupted run held after that step (every buffer phase, beyond one wrap)"""
+    import shutil
+
+    import torch
+
+    import seqm.MolecularDynamics as MD
+
+    k, eng = inp["k"], inp.get("engine", "xl")
+    d = mdh.scratch_dir("c09r")
+    prefix = os.path.join(d, "md")
+    old = MD.esdriver
+    MD.esdriver = mdh.StubEngine
+    held = {}
+    ckpts = {}
+    o_step = MD.XL_BOMD._do_integrator_step
+    o_save = MD.Molecular_Dynamics_Basic._atomic_save_checkpoint
+    o_run = MD.Molecular_Dynamics_Basic.run
+    try:
+        def w_step(self, i, molecule, lp, **kw):
+            r = o_step(self, i, molecule, lp, **kw)
+            held[i + 1] = self._xl_ctx["P"].detach().clone()
+            return r
+
+        def w_save(ckpt, path):
+            ckpts[int(ckpt["step_done"])] = {"Pt": ckpt["xl_ctx"]["Pt"].clone()}
+            o_save(ckpt, path)
+            shutil.copy(path, path + f".{int(ckpt['step_done'])}")
+        MD.XL_BOMD._do_integrator_step = w_step
+        MD.Molecular_Dynamics_Basic._atomic_save_checkpoint = staticmethod(w_save)
+        sc = dict(engine=eng, stub=True, mols=["h2o"], molid=[0], cad=dict(data=1, ckpt=1), steps=inp["steps"], temp=300.0, seed=3, k=k)
+        mol, md = mdh.make_md(sc, prefix)
+        with contextlib.redirect_stdout(io.StringIO()):
+            md.run(mol, sc["steps"], seed=3)
+        MD.XL_BOMD._do_integrator_step = o_step
+        MD.Molecular_Dynamics_Basic._atomic_save_checkpoint = staticmethod(o_save)
+        restored = {}
+
+        def fake_run(self, *a, **kw):
+            restored["P"] = self._xl_ctx["P"].detach().clone()
+            restored["Pt"] = self._xl_ctx["Pt"].detach().clone()
+        MD.Molecular_Dynamics_Basic.run = fake_run
+        out = []
+        for s_done in sorted(ckpts):
+            restored.clear()
+            with contextlib.redirect_stdout(io.StringIO()):
+                MD.Molecular_Dynamics_Basic.run_from_checkpoint(prefix + f".restart.pt.{s_done}")
+            out.append({"step_done": s_done, "restored": restored["P"].reshape(-1)[:6].tolist(), "held": held[s_done].reshape(-1)[:6].tolist(),
+                        "Pt": [restored["Pt"][q].reshape(-1)[:6].tolist() for q in range(k + 1)], "equal": bool(torch.equal(restored["P"], held[s_done]))})
+        return out
+    finally:
+        MD.esdriver = old
+        MD.XL_BOMD._do_integrator_step = o_step
+        MD.Molecular_Dynamics_Basic._atomic_save_checkpoint = staticmethod(o_save)
+        MD.Molecular_Dynamics_Basic.run = o_run
+        shutil.rmtree(d, ignore_errors=True)
+
+
+def corr_restart(ctx: Ctx, drv):
+    rng = ctx.rng
+    cases = [{"k": 3, "steps": 10, "engine": "xl"}, {"k": int(rng.integers(4, 10)), "steps": 0, "engine": "ksa"}]
+    if ctx.thorough:
+        cases += [{"k": k, "steps": 0, "engine": ["xl", "ksa"][k % 2]} for k in range(3, 10)]
+    for c in cases:
+        if not c["steps"]:
+            c["steps"] = 2 * (c["k"] + 1) + 2
+    for c, res in zip(cases, mdh.pmap(_restart_case, cases, nproc=4)):
+        if isinstance(res, Exception) or res is None:
+            ctx.obligation("restart-phase correspondence evaluated", False, repr(res)[-1200:], kind="harness")
+            continue
+        m = c["k"] + 1
+        for r in res:
+            # model: restore formula applied to the checkpointed history buffer, element by element
+            okm = True
+            for e in range(len(r["restored"])):
+                ans = drv.ask("xlrestore", m, r["step_done"], *[f2b(r["Pt"][q][e]) for q in range(m)])
+                okm = okm and len(ans) == 1 and ans[0] != "bad-op" and b2f(ans[0]) == r["restored"][e]
+            ctx.corr_case("run_from_checkpoint XL history restore", {"k": c["k"], "engine": c["engine"], "step_done": r["step_done"], "phase": (r["step_done"] - 1) % m}, "model restore", r["restored"][:2], okm,
+                          stratum=f"k={c['k']}/" + ("wrapped" if r["step_done"] > m else "first_pass"))
+            # the property itself on the real code: restored density = density held by the uninterrupted run after that step
+            ctx.probe_case("restart_phase", {"k": c["k"], "engine": c["engine"], "step_done": r["step_done"]}, r["equal"],
+                           fields={"kinds": ["restart_phase"], "k": c["k"], "engine": c["engine"]}, observed=None if r["equal"] else {"restored": r["restored"][:3], "held": r["held"][:3]},
+                           expected="restored auxiliary density equals the one held after step_done steps", predicate="bitwise", stratum="wrapped" if r["step_done"] > m else "first_pass")
+
+
+def probe_restart_replay(inp):
+    res = _restart_case({"k": inp["k"], "engine": inp.get("engine", "xl"), "steps": max(inp["step_done"], 2 * (inp["k"] + 1) + 2)})
+    r = [x for x in res if x["step_done"] == inp["step_done"]][0]
+    return {"ok": r["equal"], "observed": None if r["equal"] else {"restored": r["restored"][:3], "held": r["held"][:3]}, "expected": "restored = held", "predicate": "bitwise",
+            "fields": {"kinds": ["restart_phase"], "k": inp["k"], "engine": inp.get("engine", "xl")}}
+
+
 def probe_consistency(inp: Dict[str, Any]) -> Dict[str, Any]:
     """auxiliary density = converged density  =>  XL energy/forces = SCF energy/forces"""
     import torch
@@ -202,7 +295,7 @@ def probe_shadow(inp: Dict[str, Any]) -> Dict[str, Any]:
             "fields": {"kinds": ["shadow"] if bad else [], "k": k}}
 
 
-PROBES = {"consistency": probe_consistency, "stationary": probe_stationary, "shadow": probe_shadow}
+PROBES = {"consistency": probe_consistency, "stationary": probe_stationary, "shadow": probe_shadow, "restart_phase": probe_restart_replay}
 
 
 def gen_cases(ctx: Ctx):
@@ -236,6 +329,7 @@ def run(ctx: Ctx):
         try:
             corr_propagate(ctx, drv)
             corr_history(ctx, drv)
+            corr_restart(ctx, drv)
         except Exception:
             import traceback
             ctx.obligation("correspondence adapters C09 ran", False, traceback.format_exc()[-1500:], kind="harness")
